@@ -985,6 +985,12 @@ def r114(e: Engine, rep: Report, rule: str = 'R1.14'):
                                 t.value.value.id == 'self' and \
                                 t.value.attr in subs:
                             what = 'del self.%s[...]' % t.value.attr
+                        elif isinstance(t, ast.Subscript) and \
+                                isinstance(t.value, ast.Name):
+                            al = common.loop_alias_attrs(m.node, t.value.id)
+                            if al and any(a in subs for a in al):
+                                what = 'del self.%s[...]' % '/'.join(al)
+                                n += len(al) - 1     # one site per mapping
                 elif isinstance(x, ast.Call) and \
                         isinstance(x.func, ast.Attribute) and \
                         x.func.attr in ('pop', 'popitem', 'clear') and \
